@@ -529,6 +529,10 @@ def run(ctx):
     if os.path.exists(os.path.join(core.VERIF, "props", "C01core.py")):
         import importlib
         importlib.import_module("props.C01core").run_part(ctx)
+    # part 2 of it (props/C01core2.py): the language extended by xsl:element / xsl:comment / xsl:processing-instruction
+    if os.path.exists(os.path.join(core.VERIF, "props", "C01core2.py")):
+        import importlib
+        importlib.import_module("props.C01core2").run_part(ctx)
     return ctx.finish(LEVEL, explanation="unbounded theorems over Gallina models of the pending-start-tag event machine and of the VariablesStack (lexical scoping refinement) + structural facts regenerated from the source + two correspondences of the extracted models with the rebuilt library + a reference XSLT 1.0 interpreter as oracle on generated programs")
 
 
